@@ -135,6 +135,112 @@ def c12(run):
     run.exhaustive = run.tier == "thorough"
 
 
+# ------------------------------------------------------------------------------------ strings
+
+def _u1_literals(run):
+    run.model("MC_Literals", "MC_Literals_full.cfg" if run.tier == "thorough" else "MC_Literals.cfg",
+              workers=workers(run), timeout=1500,
+              note="operational LiteralParser = grammar-level Decode on all texts over 8 critical symbols and the "
+                   "escape-attempt family")
+
+
+@check("C06")
+def c06(run):
+    run.rule = ("cases = every call of str_concat/len/at/substr/prefixof/suffixof/contains/indexof/replace/replace_all "
+                "with subjects of length <= 4 and patterns <= 2 (3 thorough) over {a,b}, replacements {eps,a,ba}, "
+                "integer arguments {i32::MIN,-2,-1,0..len+2,i32::MAX-1,i32::MAX}; plus seeded random strings <= 12 over "
+                "real code points (0, 0xFFFF/0x10000, 0x2FFFF) with patterns cut from the subject; oracle: SMT-LIB "
+                "definitions in SmtStrings.tla; non-trivial = distinct record with non-empty subject and pattern")
+    run.assumptions = ["small scope: the functions compare characters only for equality, so two letters and lengths <= 4 "
+                       "reach every overlap/boundary case; not a proof over all strings"]
+    out, info = _drive(run, "c06")
+    fns = ["concat", "len", "at", "substr", "prefixof", "suffixof", "contains", "indexof", "replace", "replace_all"]
+    need = {f: (lambda r, f=f: r.get("f") == f) for f in fns}
+    need["indexof_empty_pattern_at_len"] = lambda r: r.get("f") == "indexof" and not r["t"] and r["i"] == len(r["s"])
+    need["replace_all_overlap"] = lambda r: r.get("f") == "replace_all" and r["s"] == [97, 97, 97] and r["t"] == [97, 97]
+    need["negative_index"] = lambda r: r.get("f") == "substr" and r["i"] < 0
+    run.validate("c06_strings", os.path.join(out, "c06_strings.ndjson"), "Trace_Strings", "Trace_Strings.cfg",
+                 ["C06:"], workers=workers(run), need=need,
+                 nontrivial=lambda r: bool(r.get("s")) and (bool(r.get("t")) or "t" not in r))
+    run.extra["driver"] = info
+
+
+@check("C09")
+def c09(run):
+    run.rule = ("cases = str_lt/str_le on all pairs of strings <= 3 over {'0','9',0x2FFFF}; str_to_int/is_digit/to_code "
+                "on digit strings around every power of ten, 2^31 and 2^32, leading zeros, non-digits; str_from_int and "
+                "to_int(from_int(n)) on boundary and random n; str_from_code on boundary codes; to_code(from_code(x)) for "
+                "EVERY x in 0..0x2FFFF+64; the same driver is built and run in the dev profile (overflow checks on) "
+                "and in the release profile (off) and both traces are validated; non-trivial = distinct record")
+    run.assumptions = ["the harness dev profile has overflow-checks on and the release profile off (harness/Cargo.toml); "
+                       "both link /repo's working tree"]
+    run.model("MC_Strings", "MC_Strings.cfg", workers=workers(run), timeout=900,
+              note="Lt is a strict total order compatible with prefixes; Le = Lt or equal; ToInt(FromInt(n)) = n; "
+                   "IndexOf/Contains/Replace consistency laws")
+    profiles = {}
+    for prof in ("dev", "release"):
+        out, info = _drive(run, "c09", profile=prof, sub="c09-" + prof)
+        profiles[prof] = info
+        need = {"lt": lambda r: r.get("f") == "lt", "to_int_overflow": lambda r: r.get("f") == "to_int" and len(r["s"]) >= 11,
+                "to_int_max": lambda r: r.get("f") == "to_int" and r["s"] == [50, 49, 52, 55, 52, 56, 51, 54, 52, 55],
+                "codes": lambda r: r.get("op") == "codes", "from_int": lambda r: r.get("f") == "from_int"}
+        run.validate("c09_" + prof, os.path.join(out, "c09_%s.ndjson" % prof), "Trace_Strings", "Trace_Strings.cfg",
+                     ["C09:"], workers=workers(run), need=need)
+    if profiles["dev"].get("overflow_checks") is not True or profiles["release"].get("overflow_checks") is not False:
+        run.tool_errors.append("build profiles do not differ in overflow checks: %s" % json.dumps(profiles))
+    run.extra["profiles"] = profiles
+
+
+@check("C17")
+def c17(run):
+    run.rule = ("cases = every public constructor: From<char> on all plane boundaries, surrogate neighbours, U+2FFFF/"
+                "U+30000, U+10FFFF and a stride sweep of U+0000..U+10FFFF (full sweep in the thorough tier); From<&str>/"
+                "From<String>/parse_smt_literal on strings mixing those characters; From<u32>/<&[u32]>/<&[u32;N]>/"
+                "<Vec<u32>> on boundary and random integers; each result is also turned into a regular expression; "
+                "plus the result of every str_* call of the C06/C09 traces, every literal of the C08 trace and every "
+                "get_string of the C05 trace; non-trivial = distinct record with an out-of-range input")
+    out, info = _drive(run, "c17")
+    need = {v: (lambda r, v=v: r.get("via") == v) for v in ["str", "string", "char", "slice", "vec", "array", "u32", "literal"]}
+    need["char_above_max"] = lambda r: r.get("op") == "chars" and any(x > core.MAXCHAR for x in r["in"])
+    need["int_above_max"] = lambda r: r.get("via") == "vec" and any(x > core.MAXCHAR for x in r["in"])
+    nt = lambda r: any(x > core.MAXCHAR for x in r.get("in", []))
+    run.validate("c17_ctors", os.path.join(out, "c17_ctors.ndjson"), "Trace_Strings", "Trace_Strings.cfg",
+                 ["C17:"], workers=workers(run), need=need, nontrivial=nt)
+    # results of operations (the obligations tagged C17 on the other traces)
+    o6, _ = _drive(run, "c06")
+    run.validate("c06_strings", os.path.join(o6, "c06_strings.ndjson"), "Trace_Strings", "Trace_Strings.cfg",
+                 ["C17:"], workers=workers(run), nontrivial=lambda r: False)
+    o8, _ = _drive(run, "c08")
+    run.validate("c08_literals", os.path.join(o8, "c08_literals.ndjson"), "Trace_Strings", "Trace_Strings.cfg",
+                 ["C17:"], workers=workers(run), nontrivial=lambda r: False)
+    o5, _ = _drive(run, "c05")
+    run.validate("c05_empty", os.path.join(o5, "c05_empty.ndjson"), "Trace_Regex", "Trace_Regex.cfg",
+                 ["C17:"], workers=workers(run), nontrivial=lambda r: False, timeout=1500)
+    run.extra["driver"] = info
+
+
+@check("C08")
+def c08(run):
+    run.rule = ("cases = parse_smt_literal on every text of length <= 4 (5 thorough) over {\\,u,{,},0,3,f,g}, on the "
+                "escape-attempt family (\\u, optional {, 0..5(6) digits from {0,2,3,F}, optional }, small contexts) and "
+                "on seeded random texts with non-ASCII characters -- EVERY PREFIX of each text is parsed, binding each "
+                "transition of the LiteralParser state machine; Display of every string <= 2 (3) over 13 content symbols, "
+                "of content spelling escape sequences, of random strings, and Display/smt_char_as_string/char_to_smt of "
+                "single code points (stride 61 plus all boundaries; all 196608 in the thorough tier): printable ASCII, "
+                "quotes doubled, round trip through Decode; non-trivial = distinct record containing a backslash")
+    run.assumptions = ["MC_Literals (run in this check): operational parser = grammar-level decoder on the small scope"]
+    _u1_literals(run)
+    out, info = _drive(run, "c08")
+    need = {"parse": lambda r: r.get("op") == "parse", "print": lambda r: r.get("op") == "print",
+            "printchars": lambda r: r.get("op") == "printchars",
+            "print_backslash": lambda r: r.get("op") == "print" and 92 in r["s"],
+            "parse_braced_escape": lambda r: r.get("op") == "parse" and r["x"][:3] == [92, 117, 123] and len(r["prefixes"][-1]) < len(r["x"]) - 3}
+    run.validate("c08_literals", os.path.join(out, "c08_literals.ndjson"), "Trace_Strings", "Trace_Strings.cfg",
+                 ["C08:"], workers=workers(run), need=need,
+                 nontrivial=lambda r: 92 in r.get("x", []) or 92 in r.get("s", []))
+    run.extra["driver"] = info
+
+
 # ------------------------------------------------------------------------------------ C15
 
 @check("C15")
